@@ -151,6 +151,10 @@ impl<'input> Parser<'input> {
 
     /// Parse the current tokens.
     pub fn parse(mut self) -> SyntaxTree<Document> {
+        #[cfg(apollo_rs_verif)]
+        {
+            self.recursion_limit.traced = true;
+        }
         grammar::document::document(&mut self);
 
         let builder = Rc::try_unwrap(self.builder)
@@ -172,6 +176,10 @@ impl<'input> Parser<'input> {
     /// This is the expected format of the string value of the `fields` argument of some directives
     /// like [`@requires`](https://www.apollographql.com/docs/federation/federated-types/federated-directives/#requires).
     pub fn parse_selection_set(mut self) -> SyntaxTree<SelectionSet> {
+        #[cfg(apollo_rs_verif)]
+        {
+            self.recursion_limit.traced = true;
+        }
         grammar::selection::field_set(&mut self);
 
         let builder = Rc::try_unwrap(self.builder)
@@ -196,6 +204,10 @@ impl<'input> Parser<'input> {
     /// This is the expected format of the string value of the `type` argument
     /// of some directives like [`@field`](https://specs.apollo.dev/join/v0.3/#@field).
     pub fn parse_type(mut self) -> SyntaxTree<Type> {
+        #[cfg(apollo_rs_verif)]
+        {
+            self.recursion_limit.traced = true;
+        }
         grammar::ty::ty(&mut self);
 
         let builder = Rc::try_unwrap(self.builder)
@@ -236,6 +248,8 @@ impl<'input> Parser<'input> {
         while let Some(TokenKind::Comment | TokenKind::Whitespace | TokenKind::Comma) = self.peek()
         {
             let token = self.pop();
+            #[cfg(apollo_rs_verif)]
+            crate::verif_trace::emit("Pend", token.index() as u64, token.data().len() as u64, 0);
             self.pending.push(PendingToken::Ignored(token));
         }
     }
@@ -255,6 +269,8 @@ impl<'input> Parser<'input> {
                     self.push_token(syntax_kind, token);
                 }
                 PendingToken::Error(data) => {
+                    #[cfg(apollo_rs_verif)]
+                    crate::verif_trace::emit("Flush", data.len() as u64, 0, 0);
                     self.builder.borrow_mut().token(SyntaxKind::ERROR, &data);
                 }
             }
@@ -291,6 +307,8 @@ impl<'input> Parser<'input> {
         let err = Error::limit(message, current.index());
         self.push_err(err);
         self.accept_errors = false;
+        #[cfg(apollo_rs_verif)]
+        crate::verif_trace::emit("LimitErr", 0, 0, 0);
     }
 
     /// Create a parser error at a given location and push it into the error vector.
@@ -379,6 +397,8 @@ impl<'input> Parser<'input> {
         // in an early termination which will cause the parser to
         // report "errors" which aren't really errors and thus
         // must be ignored.
+        #[cfg(apollo_rs_verif)]
+        crate::verif_trace::emit("Err", self.accept_errors as u64, 0, 0);
         if self.accept_errors {
             self.errors.push(err);
         }
@@ -401,9 +421,23 @@ impl<'input> Parser<'input> {
                     if !data.is_empty() {
                         self.pending.push(PendingToken::Error(data.to_owned()));
                     }
+                    #[cfg(apollo_rs_verif)]
+                    crate::verif_trace::emit(
+                        "LexErr",
+                        data.len() as u64,
+                        err.is_limit() as u64,
+                        err.index() as u64,
+                    );
                     self.errors.push(err);
                 }
                 Ok(token) => {
+                    #[cfg(apollo_rs_verif)]
+                    crate::verif_trace::emit(
+                        "LexTok",
+                        token.kind() as u64,
+                        token.index() as u64,
+                        token.data().len() as u64,
+                    );
                     return Some(token);
                 }
             }
@@ -414,6 +448,8 @@ impl<'input> Parser<'input> {
 
     /// Consume a token from the lexer.
     pub(crate) fn pop(&mut self) -> Token<'input> {
+        #[cfg(apollo_rs_verif)]
+        crate::verif_trace::emit("Pop", self.current_token.is_some() as u64, 0, 0);
         if let Some(token) = self.current_token.take() {
             return token;
         }
@@ -424,6 +460,13 @@ impl<'input> Parser<'input> {
 
     /// Insert a token into the syntax tree.
     pub(crate) fn push_token(&mut self, kind: SyntaxKind, token: Token) {
+        #[cfg(apollo_rs_verif)]
+        crate::verif_trace::emit(
+            "Tok",
+            kind as u64,
+            token.index() as u64,
+            token.data().len() as u64,
+        );
         self.builder.borrow_mut().token(kind, token.data())
     }
 
@@ -436,6 +479,8 @@ impl<'input> Parser<'input> {
     pub(crate) fn start_node(&mut self, kind: SyntaxKind) -> NodeGuard {
         self.push_ignored();
 
+        #[cfg(apollo_rs_verif)]
+        crate::verif_trace::emit("Start", kind as u64, 0, 0);
         self.builder.borrow_mut().start_node(kind);
         let guard = NodeGuard::new(self.builder.clone());
         self.skip_ignored();
@@ -450,6 +495,8 @@ impl<'input> Parser<'input> {
         // our preceding whitespace first
         self.push_ignored();
 
+        #[cfg(apollo_rs_verif)]
+        crate::verif_trace::emit("Ckpt", 0, 0, 0);
         let checkpoint = self.builder.borrow().checkpoint();
         Checkpoint::new(self.builder.clone(), checkpoint)
     }
@@ -578,6 +625,8 @@ impl NodeGuard {
 
 impl Drop for NodeGuard {
     fn drop(&mut self) {
+        #[cfg(apollo_rs_verif)]
+        crate::verif_trace::emit("Finish", 0, 0, 0);
         self.builder.borrow_mut().finish_node();
     }
 }
@@ -600,6 +649,8 @@ impl Checkpoint {
     /// `kind`. Returns a NodeGuard that when dropped, finishes this new parent node. More children
     /// can be added to this new node in the mean time.
     pub(crate) fn wrap_node(self, kind: SyntaxKind) -> NodeGuard {
+        #[cfg(apollo_rs_verif)]
+        crate::verif_trace::emit("Wrap", kind as u64, 0, 0);
         self.builder.borrow_mut().wrap_node(self.checkpoint, kind);
         NodeGuard::new(self.builder)
     }
